@@ -149,6 +149,15 @@ def call_impl(spec, names, ms):
 
     try:
         if ms is not None:
+            # a fresh ModelSpec object per execution and a fixed two-call history (a primer with the same expressions
+            # but other mapping values, then the real call): anything the spec object remembers between calls shows up
+            # deterministically instead of depending on what earlier executions of this worker happened to ask
+            ms = ms.update()
+            primer = {k: v + 1 for k, v in spec.items()} if isinstance(spec, dict) else spec
+            try:
+                ms.get_linear_constraints(primer)
+            except Exception:
+                pass
             lc = ms.get_linear_constraints(spec)
         else:
             lc = LinearConstraints.from_spec(spec, variable_names=list(names))
